@@ -153,7 +153,13 @@ func c14Case(env *Env, tape *sim.Tape) *CaseOut {
 			embed = 0
 		}
 	}
-	refKey := fmt.Sprintf("%d/%d/%d", di, embed, trunc)
+	// parameters on the media type of the call itself (charset, and inline=1, which the
+	// minifiers read): the error contract does not depend on them
+	if cmdRaw%16 == 5 && !isCmd && embed == 0 {
+		mt += []string{"; charset=utf-8", ";inline=1", "; inline=1; charset=utf-8"}[cmdRaw/16%3]
+		out.stat("probe_media_type_parameters_on_the_call", 1)
+	}
+	refKey := fmt.Sprintf("%d/%d/%d/%s", di, embed, trunc, mt)
 	if isCmd {
 		refKey += fmt.Sprintf("/cmd%d", len(data))
 	}
@@ -238,11 +244,30 @@ func c14Case(env *Env, tape *sim.Tape) *CaseOut {
 	}
 	readErr := sim.ErrInjectedRead
 	if kr >= 0 {
-		if krRaw/3%4 == 3 {
+		switch krRaw / 3 % 12 {
+		case 3, 7:
 			readErr = sim.ErrInjectedReadEOF
 			out.stat("probe_reader_error_wrapping_eof", 1)
+		case 8:
+			// what a source returns that ended before its announced length (a body shorter
+			// than its Content-Length, a truncated gzip stream): a failure, not an end
+			readErr = io.ErrUnexpectedEOF
+			out.stat("probe_reader_error_is_a_std_sentinel", 1)
+		case 9:
+			readErr = os.ErrDeadlineExceeded
+			out.stat("probe_reader_error_is_a_std_sentinel", 1)
+		case 10:
+			readErr = io.ErrClosedPipe
+			out.stat("probe_reader_error_is_a_std_sentinel", 1)
+		case 11:
+			readErr = sim.ErrInjectedECONNRESET
+			out.stat("probe_reader_error_is_a_std_sentinel", 1)
 		}
 		op.R.FailAt, op.R.FailErr, op.R.FailWithData = kr, readErr, fk == fkReadData
+	}
+	if kwRaw/11%4 == 3 {
+		op.WriterKind = 1 + int(kwRaw/44%3)
+		out.stat("probe_writer_with_extra_methods", 1)
 	}
 	if !useBytes {
 		op.ReaderKind = krRaw / 11 % 4 % 3 // plain, bufio, MultiReader
